@@ -205,12 +205,14 @@ def close1(ctx, rule="CLOSE-1"):
                       "%s does not propagate the result of finish(): %s" % (short(name), sorted(tags)), f.loc(t["sp"]), fn=f.name, key="%s|%s|prop" % (rule, short(name)))
     f = prog.fn(P + "flush")
     cf = [(b, t) for b, t in f.calls() if cname(prog, t) == "cfb::CompoundFile::<F>::flush"]
-    ok = len(cf) == 1 and cf[0][1]["dest"]["l"] == 0
+    from ..lib import ret_locals
+    rl = ret_locals(f)
+    ok = len(cf) >= 1 and all(c[1]["dest"]["l"] in rl and not c[1]["dest"]["p"] for c in cf)
     if ok:
-        # the container flush is reached on both edges (finisher present or absent), only error returns skip it
+        # a container flush whose result is returned is reached on both edges (finisher present or absent), only error returns skip it
         resid = {b for b, t in f.calls() if (t.get("callee") or "").endswith("FromResidual::from_residual")}
-        resid |= {bl["id"] for bl in f.blocks if not bl["cleanup"] for st in bl["stmts"] if st["lhs"]["l"] == 0 and not st["lhs"]["p"] and st["rhs"]["rv"] == "agg" and st["rhs"].get("variant") == "Err"}
-        ok = not (set(f.returns()) & cfg.reachable(f, 0, avoid={cf[0][0]} | resid))
+        resid |= {bl["id"] for bl in f.blocks if not bl["cleanup"] for st in bl["stmts"] if st["lhs"]["l"] in rl and not st["lhs"]["p"] and st["rhs"]["rv"] == "agg" and st["rhs"].get("variant") == "Err"}
+        ok = not (set(f.returns()) & cfg.reachable(f, 0, avoid={c[0] for c in cf} | resid))
     ctx.check(ok, rule, "flush returns CompoundFile::flush", "", "Package::flush does not end by returning the result of CompoundFile::flush on every non-error path", f.loc(), fn=f.name,
               key="%s|flush|container" % rule)
     f = prog.fn(P + "into_inner")
@@ -404,9 +406,14 @@ def dirty2(ctx, rule="DIRTY-2"):
             continue
         n += 1
         sf = {b for b, t in f.calls() if cname(prog, t) == P + "set_finisher"}
-        bad = [e for e in effects if e[0] in cfg.reachable(f, 0, avoid=sf) and e[0] not in sf]
+        rets = set(f.returns())
+
+        def armed_after(b):
+            # every way from the effect to a return (error returns included) passes set_finisher
+            return not (rets & cfg.reachable_strict(f, b, avoid=sf))
+        bad = [e for e in effects if e[0] in cfg.reachable(f, 0, avoid=sf) and e[0] not in sf and not (sf and armed_after(e[0]))]
         ctx.check(not bad, rule, "%s arms the finisher" % short(f.name), "effects %s" % sorted({e[1] for e in effects}),
-                  "%s can reach %s without calling set_finisher first: the change is never written back on close" % (short(f.name), sorted({e[1] for e in bad})),
+                  "%s can reach %s without calling set_finisher before it (or on every path after it): the change is never written back on close" % (short(f.name), sorted({e[1] for e in bad})),
                   f.loc(), fn=f.name, key="%s|%s" % (rule, short(f.name)))
         if hands_out:
             st = {b for (b, s) in field_assigns(f, "is_summary_info_modified") if const_assigned(s) == 1}
